@@ -54,7 +54,20 @@ func checkC16(ix *index, add addFn) {
 		op := ix.tr[ix.discAt].Op - 1
 		discRet = ix.ops[op].ret
 		if discRet >= ix.end() || ix.ops[op].err != "" {
-			discRet = -1 // returned only during teardown, or gave up with an error
+			notConn := false
+			if sc.Cfg.Client == "base" && discRet >= 0 && discRet < ix.end() && hasCls(ix.ops[op].cls, "notconn") {
+				// "not connected" from a plain client on whose transport Connect had been
+				// called (and failed, the transport still being open): the call was made
+				// and nothing else was the matter, so it counts as carried out
+				for k2, op2 := range sc.Ops {
+					if op2.Kind == "connect" && op2.Cli == sc.Ops[op].Cli && ix.ops[k2].ret >= 0 && ix.ops[k2].ret < ix.discAt {
+						notConn = true
+					}
+				}
+			}
+			if !notConn {
+				discRet = -1 // returned only during teardown, or gave up with an error
+			}
 		}
 	}
 	for k, c := range conns {
@@ -140,6 +153,11 @@ func checkC16(ix *index, add addFn) {
 		// the connection ended before the disconnect was carried out on it (for the
 		// reconnecting client Disconnect() only queues the request)
 		overlap := disc >= 0 && end >= 0 && (discStateAt < 0 || end < discStateAt)
+		if overlap && sc.Cfg.Client == "base" && discStateAt < 0 && discRet >= 0 && end > discRet {
+			// no overlap at all: Disconnect on the plain client had returned, having
+			// reported nothing, before anything else ended the connection
+			overlap = false
+		}
 		if disc < 0 && end >= 0 && ix.complete {
 			if nClosed != 1 {
 				add("closed", fmt.Sprintf("conn %d ended (%s) without Disconnect: Closed reported %d times", k, c.endKind, nClosed), nil)
